@@ -122,12 +122,12 @@ def harnesses(tier):
     hs.append(Harness('map_history', 'maps', h_map, jobs=[dict(kind=0, n=N, idbound=10), dict(kind=1, n=N), dict(kind=2, n=N), dict(kind=3, n=2, idbound=8), dict(kind=4, n=2, idbound=8), dict(kind=5, n=N)],
                       desc='%d insertions with distinct symbolic ids (any order) + sort, then get()/get_noexcept() of a symbolic id on DenseMemArray, SparseMemArray, FlexMem (sparse, switched to dense, dense), SparseMemMap: exactly the inserted value for inserted ids, not found / empty otherwise' % N,
                       bounds='%d insertions; 64-bit ids for the sparse kinds, ids < 10 / < 8 for the dense kinds (vector indexed by id)' % N, testgen=lambda rnd: [dict(_job=3, **t) for t in gen(2, 8)(rnd)], wall=900, step_cap=20_000_000))
-    hs.append(Harness('flexmem_auto_switch', 'maps', h_map, jobs=[dict(kind=2, n=N, idbound=10)], defs=('OSMCODE_LIBOSMIUM_VERIF', 'OSMCODE_LIBOSMIUM_VERIF_FLEXMEM_MIN_DENSE_ENTRIES=3'),
-                      desc='FlexMem with the automatic switch from the sparse to the dense index reachable (guarded hook: threshold 3 entries instead of 2^24 - 1): %d insertions with distinct symbolic ids, the third or a later one triggers switch_to_dense() when the largest id is below three times the number of entries; lookups afterwards agree with the map model (the entry that triggers the switch included)' % N,
-                      bounds='%d insertions, ids < 10; threshold lowered through OSMCODE_LIBOSMIUM_VERIF_FLEXMEM_MIN_DENSE_ENTRIES' % N, testgen=lambda rnd: [dict(_job=0, **t) for t in gen(N, 10)(rnd)], wall=900, step_cap=20_000_000))
-    hs.append(Harness('mmap_arrays', 'maps', h_map, jobs=[dict(kind=6, n=N, idbound=14), dict(kind=7, n=N)], defs=('OSMCODE_LIBOSMIUM_VERIF', 'OSMCODE_LIBOSMIUM_VERIF_MMAP_VECTOR_SIZE_INCREMENT=4'),
+    hs.append(Harness('flexmem_auto_switch', 'maps', h_map, jobs=[dict(kind=2, n=3, idbound=10 if q else 12)], defs=('OSMCODE_LIBOSMIUM_VERIF', 'OSMCODE_LIBOSMIUM_VERIF_FLEXMEM_MIN_DENSE_ENTRIES=3'),
+                      desc='FlexMem with the automatic switch from the sparse to the dense index reachable (guarded hook: threshold 3 entries instead of 2^24 - 1): %d insertions with distinct symbolic ids, the third or a later one triggers switch_to_dense() when the largest id is below three times the number of entries; lookups afterwards agree with the map model (the entry that triggers the switch included)' % 3,
+                      bounds='3 insertions (4 do not finish in 15 minutes), ids < %d; threshold lowered through OSMCODE_LIBOSMIUM_VERIF_FLEXMEM_MIN_DENSE_ENTRIES' % (10 if q else 12), testgen=lambda rnd: [dict(_job=0, **t) for t in gen(3, 10)(rnd)], wall=900, step_cap=20_000_000))
+    hs.append(Harness('mmap_arrays', 'maps', h_map, jobs=[dict(kind=6, n=3, idbound=14 if q else 16), dict(kind=7, n=N)], defs=('OSMCODE_LIBOSMIUM_VERIF', 'OSMCODE_LIBOSMIUM_VERIF_MMAP_VECTOR_SIZE_INCREMENT=4'),
                       desc='DenseMmapArray and SparseMmapArray on anonymous memory mappings (mmap / mremap / munmap modelled: fresh and grown memory is zero-filled, as the kernel delivers it) with the growth step of the mapping lowered from 2^20 to 4 elements (guarded hook), so that %d insertions make the mapping grow several times: lookups agree with the map model; in particular slots that were mapped but never set read as not found, although zero bytes are the valid location (0, 0)' % N,
-                      bounds='%d insertions, ids < 14 for the dense array; growth step through OSMCODE_LIBOSMIUM_VERIF_MMAP_VECTOR_SIZE_INCREMENT; file-backed mappings (DenseFileArray, SparseFileArray) are not encoded' % N, native_ok=True, wall=900, step_cap=20_000_000))
+                      bounds='3 (dense) / %d (sparse) insertions, ids < 14 (thorough: 16) for the dense array; growth step through OSMCODE_LIBOSMIUM_VERIF_MMAP_VECTOR_SIZE_INCREMENT; file-backed mappings (DenseFileArray, SparseFileArray) are not encoded' % N, native_ok=True, wall=900, step_cap=20_000_000))
     hs.append(Harness('dump_list', 'maps', h_dump_list, jobs=[dict(kind=1, n=3)], desc='SparseMemArray dump_as_list (write() replaced by a byte recorder): the bytes are the (id, value) records sorted by id', bounds='3 entries'))
     hs.append(Harness('dump_array', 'maps', h_dump_array, jobs=[dict(n=2, idbound=6)], desc='DenseMemArray dump_as_array: slot i holds the value of id i, the empty value elsewhere', bounds='2 entries, ids < 6'))
     hs.append(Harness('node_locations_for_ways', 'maps', h_handler, jobs=[dict(kind=1, nodes=3, refs=2, ignore=0), dict(kind=1, nodes=3, refs=2, ignore=1), dict(kind=0, nodes=2, refs=2, ignore=0, idbound=6)],
